@@ -129,12 +129,13 @@ RootRw(u) ==
      THEN {u.a[1].a[PyIndex(Len(u.a[1].a), u.a[2].n)]} ELSE {}) \cup
     (IF u.k = "sub" /\ u.a[1].k = "dict" /\ u.a[2].k \in {"str", "int"}
           /\ \E i \in 1..(Len(u.a[1].a) \div 2) : u.a[1].a[2 * i - 1] = u.a[2]
+     \* (a key written more than once: the LAST value counts, as in Python)
      THEN {u.a[1].a[2 * (CHOOSE i \in 1..(Len(u.a[1].a) \div 2) : u.a[1].a[2 * i - 1] = u.a[2] /\
-                           \A j \in 1..(i - 1) : u.a[1].a[2 * j - 1] # u.a[2])]} ELSE {}) \cup
+                           \A j \in (i + 1)..(Len(u.a[1].a) \div 2) : u.a[1].a[2 * j - 1] # u.a[2])]} ELSE {}) \cup
     (IF u.k = "attr" /\ u.a[1].k = "dict"
           /\ \E i \in 1..(Len(u.a[1].a) \div 2) : u.a[1].a[2 * i - 1] = StrC(u.s)
      THEN {u.a[1].a[2 * (CHOOSE i \in 1..(Len(u.a[1].a) \div 2) : u.a[1].a[2 * i - 1] = StrC(u.s) /\
-                           \A j \in 1..(i - 1) : u.a[1].a[2 * j - 1] # StrC(u.s))]} ELSE {}) \cup
+                           \A j \in (i + 1)..(Len(u.a[1].a) \div 2) : u.a[1].a[2 * j - 1] # StrC(u.s))]} ELSE {}) \cup
     (* First() push-through *)
     (IF u.k = "sub" /\ IsCallOf(u.a[1], "First") /\ u.a[1].n = 1 THEN
         LET z == Fresh(AllNames(u)) IN
